@@ -265,6 +265,52 @@ def h_frozen_hash(n: int, a: int, b: int, c: int, k: int, d: int, e: int, g: int
     return reach(ok)
 
 
+def h_snapshot(op: int, n: int, a: int, b: int, c: int, v: int) -> bool:
+    """
+    pre: 0 <= op < 10 and 0 <= n <= 3 and 0 <= a < 3 and 0 <= b < 3 and 0 <= c < 3 and 0 <= v < 3
+    post: _
+    """
+    # a frozen set is a snapshot: whatever happens to the set it was made from (and to copies made from it)
+    # afterwards, its elements, order, length and hash stay what they were
+    xs = _mk(n, a, b, c)
+    m = _uniq(xs)
+    s = OrderedSet(xs)
+    f1 = s.freeze()
+    f2 = FrozenOrderedSet(s)
+    c1 = OrderedSet(s)
+    h1, h2 = hash(f1), hash(f2)
+    if op == 0:
+        s.add(v)
+    elif op == 1:
+        s.discard(v)
+    elif op == 2:
+        if v in m:
+            s.remove(v)
+    elif op == 3:
+        if m:
+            s.pop()
+    elif op == 4:
+        s.clear()
+    elif op == 5:
+        s.update([v, (v + 1) % 3])
+    elif op == 6:
+        s |= OrderedSet([v])
+    elif op == 7:
+        s -= OrderedSet([v])
+    elif op == 8:
+        s &= OrderedSet([v])
+    else:
+        s ^= OrderedSet([v, (v + 1) % 3])
+    ok = _same(f1, m) and _same(f2, m) and _same(c1, m)
+    ok = ok and hash(f1) == h1 and hash(f2) == h2 and f1 == f2
+    # and the other way round: a mutable copy made from a frozen set does not write through
+    t = OrderedSet(f1)
+    t.add((v + 1) % 3)
+    t.discard(v)
+    ok = ok and _same(f1, m)
+    return reach(ok)
+
+
 def h_history(h: int, n: int, a: int, b: int, c: int, o1: int, v1: int, o2: int, v2: int, o3: int, v3: int) -> bool:
     """
     pre: 1 <= h <= 3 and (h >= 3 or (o3 == 0 and v3 == 0)) and (h >= 2 or (o2 == 0 and v2 == 0))
@@ -378,6 +424,7 @@ def obligations(tier: str):
         Chx("getitem", h_getitem, timeout=T),
         Chx("mutate", h_mutate, timeout=T, split={"op": list(range(5))}),
         Chx("frozen_hash", h_frozen_hash, timeout=T, split={"n": [0, 1, 2, 3]}),
+        Chx("snapshot", h_snapshot, timeout=T, split={"op": list(range(10))}),
         Chx("typeset", h_typeset, timeout=T, split={"op": list(range(7)), "n": ns}),
     ]
     if q:
